@@ -249,6 +249,8 @@ def r2_r3_greedy_loop(ctx: Context, rule2="C13.R2", rule3="C13.R3") -> None:
                 ctx.violation(rule3, key, loc(g.loop), f"one iteration of the placement loop appends {len(apps)} decisions for the task")
                 continue
             a = apps[0].args[0]
+            if not isinstance(a, ast.Call):
+                raise AnalysisError(f"{g.q}: the decision appended at {loc(apps[0])} is `{norm(a)[:40]}`, not a Placement.create_* call: cannot classify it")
             kind = "cancel" if call_name(a) == "create_task_cancellation" else ("placed" if any(k.arg == "worker_pool_id" for k in a.keywords) else "unplaced")
             if kind == "unplaced":
                 ctx.check("T" not in fit_results, rule3, key, loc(apps[0]), "unplaced only after every fit test failed",
